@@ -1684,6 +1684,53 @@ def groupby_sortedness(cx: Cx, ob: Ob, files: set | None = None, strict_only: bo
                     )
 
 
+def carried_into_outputs(cx: Cx, ob: Ob, roots: list[str], what: str) -> None:
+    """Per-record emitters: in every loop over a converter's records (in the root functions and the package
+    functions they call), what is yielded / appended / stored / written for one record must not contain a
+    local that carries its value over from an earlier record (assigned before the loop or only conditionally
+    inside it)."""
+    seen_fn, todo = set(), list(roots)
+    n_loops = 0
+    while todo:
+        q = todo.pop()
+        if q in seen_fn:
+            continue
+        seen_fn.add(q)
+        fn = cx.model.functions.get(q)
+        if fn is None:
+            continue
+        todo.extend(_ast_callees(cx, fn) - seen_fn)
+        s = cx.summary(fn)
+        for lp, ctx in s.walk():
+            if lp.kind != "loop" or ctx.loops or not any(op(x) == "attr" and x[2] == "records" for x in subterms(lp.b)):
+                continue
+            n_loops += 1
+            ob.site(f"{where(fn, lp.line)} {fn.qualname}", f"loop over {show(lp.b)[:40]}")
+
+            def scan(paths):
+                for pth in paths:
+                    for ev in pth.events:
+                        emits = ev.kind in ("yield", "store") or (ev.kind == "expr" and op(ev.a) == "call" and callee_name(ev.a) in ("append", "add", "extend", "update", "write", "writerow", "writerows", "setdefault", "insert"))
+                        if emits:
+                            for t in (ev.a, ev.b):
+                                if isinstance(t, tuple):
+                                    for x in subterms(t):
+                                        if op(x) == "phi" and x[2] == lp.c:
+                                            ob.violate(
+                                                fn.qualname,
+                                                where(fn, ev.line),
+                                                f"{what}: `{x[1]}` keeps its value from an earlier record when the current record does not set it, and that stale value goes into what is written for the current record",
+                                                witness="records CHEBI (with a pattern) and GO (without): GO is written with CHEBI's pattern",
+                                                detail=f"carried:{x[1]}",
+                                            )
+                        if ev.body:
+                            scan(ev.body)
+
+            scan(lp.body or [])
+    if n_loops == 0:
+        ob.undecide(f"{what}: no loop over a converter's records found in {roots}")
+
+
 def package_lints(cx: Cx, ob: Ob, files: set) -> None:
     """ONE-SHOT iterator reuse and MUTABLE-DEFAULT leaks in the files a property is anchored in."""
     from .analyses.lints import scan
